@@ -1,5 +1,6 @@
 import TracklibVerif.Model.Features
 import TracklibVerif.Model.FeaturesWorld
+import TracklibVerif.Model.FeaturesCall
 import TracklibVerif.Model.Expr
 import TracklibVerif.Drv.Util
 /-! Driver handler for C01 (feature table). Commands:
@@ -34,6 +35,8 @@ One op is one token, fields separated by `:` (an empty last field = argument not
   opq:COLS:CELLS:OUT:V,V,…   (operator with opaque values: column reads, cell reads, output, values written)
   rev:IN:OUT   probe:COLS:CELLS   (non-void operator: reads only)
   expr:tok,tok,…   (RPN of the expression; name tokens encoded as above)
+  seq;<op>;<op>;…  (list form of a void operator family, `Model/FeaturesCall.lean`: the single calls, one per position)
+  refused          (list form of a value-returning unary / binary operator: TypeError)
 Reply: one block per op, blocks separated by a space:
   outcome~ret~names~columns~rowlens~xs~ys~zs~ts
 with outcome `ok` or `err:<kind>`, ret `-` | `n<v>` | `c<v,…>`, names `,`-separated in dict order (encoded),
@@ -255,14 +258,20 @@ def op? (tok : String) : Option (Op Float) :=
     if l.isEmpty then none else some (.expr l)
   | _ => none
 
-def runFrom (cmd : String) (xs ys zs ts : List Float) (cols : List (String × List Float)) (ops : List (Op Float)) : String :=
+def call? (tok : String) : Option (Call Float) :=
+  if tok == "refused" then some .refused
+  else match tok.splitOn ";" with
+    | "seq" :: toks => (toks.mapM op?).map .list
+    | _ => (op? tok).map .one
+
+def runFrom (cmd : String) (xs ys zs ts : List Float) (cols : List (String × List Float)) (ops : List (Call Float)) : String :=
   if ys.length != xs.length || zs.length != xs.length || ts.length != xs.length then "bad-request"
   else if cols.any (fun p => p.2.length != xs.length) || !(cols.map Prod.fst).Nodup then "bad-request"
   else if cmd == "run" || cmd == "runi" then
-    joinWith " " ((trace fops ops (mkSt cols xs ys zs ts)).map fun r => showSt r.1 r.2)
+    joinWith " " ((traceC fops ops (mkSt cols xs ys zs ts)).map fun r => showSt r.1 r.2)
   else if cmd == "arun" || cmd == "aruni" then
     let t : ATab Float := { cols := cols, xs := xs, ys := ys, zs := zs, ts := ts }
-    joinWith " " ((trace fops ops t).map fun r => showATab r.1 r.2)
+    joinWith " " ((traceC fops ops t).map fun r => showATab r.1 r.2)
   else "bad-request"
 
 def showSys (r : Except Err (Ret Float)) (s : Sys Float) : String :=
@@ -304,9 +313,11 @@ def worldStep (acc : Sys Float × Nat × List String) (tok : String) : Option (S
     | .ok (s', _) => some (s', cur, showSys (.ok .none) s' :: out)
     | .error e => some (s, cur, showSys (.error e) s :: out)
   | _ => do
-    let op ← op? tok
-    let (r, s') ← s.api fops cur op
-    some (s', cur, showSys r s' :: out)
+    let c ← call? tok
+    let w ← s.focus cur
+    let r := call fops c w
+    let s' := s.store cur r.2
+    some (s', cur, showSys r.1 s' :: out)
 
 def handle (cmd : String) (args : List String) : String :=
   if cmd == "world" then
@@ -317,14 +328,14 @@ def handle (cmd : String) (args : List String) : String :=
   if cmd == "run" || cmd == "arun" then
     match args with
     | xs :: ys :: zs :: ts :: ops =>
-      match floatList? xs, floatList? ys, floatList? zs, floatList? ts, ops.mapM op? with
+      match floatList? xs, floatList? ys, floatList? zs, floatList? ts, ops.mapM call? with
       | some xs, some ys, some zs, some ts, some ops => runFrom cmd xs ys zs ts [] ops
       | _, _, _, _, _ => "bad-request"
     | _ => "bad-request"
   else if cmd == "runi" || cmd == "aruni" then
     match args with
     | xs :: ys :: zs :: ts :: names :: cols :: ops =>
-      match floatList? xs, floatList? ys, floatList? zs, floatList? ts, nameList? names, floatListList? cols, ops.mapM op? with
+      match floatList? xs, floatList? ys, floatList? zs, floatList? ts, nameList? names, floatListList? cols, ops.mapM call? with
       | some xs, some ys, some zs, some ts, some names, some cols, some ops =>
         if names.length != cols.length then "bad-request" else runFrom cmd xs ys zs ts (names.zip cols) ops
       | _, _, _, _, _, _, _ => "bad-request"
